@@ -48,6 +48,12 @@ CHECKS = {
  "C07": dict(cat="model_checking", ref="§5/C07",
    text="Validation.tla also contains a catalogue of ~50 violation-injecting rewrites covering all 26 supported rules at every applicable site (operation root, second operation, nested selection, inside named / inline fragments, fragment definitions, directive arguments, nested input values, variable definitions). TLC applies every rewrite at every applicable node of every valid seed and checks R1_RewritesInvalid (the targeted rule predicate is false on the rewritten document). Every rewritten document (~80k) is sent to the engine: data null, non-empty errors, zero resolver / source-stream calls. Which rule reports is logged, not compared.",
    technique="TLA+ rule predicates + rewrite catalogue (Validation.tla), TLC exhaustive (seed x rule x site), replay into the engine"),
+ "C11": dict(cat="model_checking", ref="§5/C11",
+   text="SchemaModel.tla represents an SDL as the pieces a user writes (definitions, `extend` pieces of every kind, directive definitions, schema block), Normalise merges extensions, Image is what introspection must report. TLC generates the base model (every type kind, wrappers to depth 3, defaults of every value kind incl. strings needing escapes, interfaces with several implementers, union, custom directive, deprecations with and without reason, @nonIntrospectable fields) plus 0..2 variations (moving members into `extend` pieces, added fields/values/input fields/directives/roots) and checks R1_WellFormed / R1_ImageExact. Every model is rendered to SDL and supplied as string / file / list of files / directory; the full introspection query, __type(name:) for every type and an unknown name, __typename, includeDeprecated absent/true/false are projected and compared with Image(model).",
+   technique="TLA+ schema model + expected introspection image (SchemaModel.tla), TLC-generated models, round trip through SDL parsing, schema building and introspection"),
+ "C12": dict(cat="model_checking", ref="§5/C12",
+   text="SchemaModel.tla's WellFormed is the conjunction of the checked schema rules (one predicate each); Breaks is a catalogue of ~75 violations (rule x site: base definition / `extend` piece / behind wrappers / interface vs object / field vs argument vs input field vs directive argument / default vs custom root names / duplicates / missing implementations / syntax errors). TLC applies every break to the base model and to each 1-step variation and checks R1_Broken (the targeted predicate is false). create_engine must raise for each of the ~3000 broken models (through all four supply routes in rotation).",
+   technique="TLA+ schema rule predicates + break catalogue (SchemaModel.tla), TLC exhaustive (model x rule x site), cook of every broken model"),
 }
 NOT_YET = {}
 
